@@ -311,6 +311,7 @@ where
     type O = Op<u8, V, u8>;
     const NAME: &'static str = V::MAPNAME;
     const HAS_RESET: bool = true;
+    const HAS_CTX: bool = true;
 
     fn new_state() -> Self::S {
         Map::new()
